@@ -76,9 +76,13 @@ type zzC06Vec struct {
 	Tab     []zzC06Entry
 	Ordered bool
 	Verd    map[string]*zzC06Verdict // key: name "|" qtype
-	// VerdC are the additional outcomes when the CNAME answers are written
-	// in another letter case (nil: the table has no CNAME entry).
+	// VerdC are the outcomes when the CNAME answers are written in another
+	// letter case and read verbatim (nil: the table has no CNAME entry); they
+	// only serve to attribute a disagreement to the finding about letter case.
 	VerdC map[string]*zzC06Verdict
+	// VerdK, likewise, are the outcomes when one known deviation ("tie",
+	// "exact", "late", or "all" of them) is admitted, where that differs.
+	VerdK map[string]map[string][]zzC06Out
 }
 
 type zzC06Header struct {
@@ -91,6 +95,7 @@ type zzC06RawVec struct {
 	T   []json.RawMessage `json:"t"`
 	V   []json.RawMessage `json:"v"`
 	VC  []json.RawMessage `json:"vc"`
+	VK  []json.RawMessage `json:"vk"`
 	O   int               `json:"o"`
 }
 
@@ -130,6 +135,30 @@ func zzC06Decode(hdr *zzC06Header, raw *zzC06RawVec) (v *zzC06Vec, err error) {
 	if len(raw.VC) > 0 {
 		if v.VerdC, err = zzC06DecodeVerdicts(name, raw.VC); err != nil {
 			return nil, err
+		}
+	}
+
+	v.VerdK = map[string]map[string][]zzC06Out{}
+	for _, rk := range raw.VK {
+		// [name, qtype, deviation, outcomes]
+		var tup []json.RawMessage
+		var flag string
+		if err = json.Unmarshal(rk, &tup); err != nil || len(tup) != 4 || json.Unmarshal(tup[2], &flag) != nil {
+			return nil, fmt.Errorf("bad vk %s: %v", rk, err)
+		}
+
+		three, _ := json.Marshal([]json.RawMessage{tup[0], tup[1], tup[3]})
+		var m map[string]*zzC06Verdict
+		if m, err = zzC06DecodeVerdicts(name, []json.RawMessage{three}); err != nil {
+			return nil, err
+		}
+
+		for k, vd := range m {
+			if v.VerdK[k] == nil {
+				v.VerdK[k] = map[string][]zzC06Out{}
+			}
+
+			v.VerdK[k][flag] = vd.Outs
 		}
 	}
 
@@ -550,6 +579,8 @@ type zzC06Runner struct {
 	hangs   int
 	flaky   int
 	stop    bool
+	// devs counts the disagreements explained by each known deviation.
+	devs map[string]int
 }
 
 func (r *zzC06Runner) put(v any) {
@@ -603,20 +634,36 @@ func (r *zzC06Runner) concreteTable(tab []zzC06Entry, order []int) (lines []stri
 	return lines
 }
 
-func zzC06Wanted(v *zzC06Vec, q zzC06Query, cased bool) (outs []zzC06Out) {
+// zzC06Wanted is what the specification admits (letter case is immaterial).
+func zzC06Wanted(v *zzC06Vec, q zzC06Query, _ bool) (outs []zzC06Out) {
 	vd, ok := v.Verd[zzC06Key(q.h, q.qt)]
 	if !ok {
 		return zzC06PassOnly
 	}
 
-	outs = vd.Outs
-	if cased {
-		if vc, okc := v.VerdC[zzC06Key(q.h, q.qt)]; okc {
-			outs = append(append([]zzC06Out{}, outs...), vc.Outs...)
+	return vd.Outs
+}
+
+// zzC06Deviation attributes a result that the specification does not admit
+// to the known deviation that does: "case" (cased pass only), "tie", "exact",
+// "late", "all"; "" if none does.
+func zzC06Deviation(v *zzC06Vec, q zzC06Query, cased bool, g *zzC06Got) (dev string) {
+	k := zzC06Key(q.h, q.qt)
+	for _, f := range []string{"tie", "exact", "late"} {
+		if outs, ok := v.VerdK[k][f]; ok && zzC06Admissible(outs, g) {
+			return f
 		}
 	}
 
-	return outs
+	if vc, ok := v.VerdC[k]; cased && ok && zzC06Admissible(vc.Outs, g) {
+		return "case"
+	}
+
+	if outs, ok := v.VerdK[k]["all"]; ok && zzC06Admissible(outs, g) {
+		return "all"
+	}
+
+	return ""
 }
 
 // zzC06CaseVariant is the table with every CNAME answer in another letter
@@ -701,11 +748,33 @@ func (r *zzC06Runner) table(v *zzC06Vec, idx int, qs []zzC06Query) {
 				break
 			}
 
+			// A disagreement that one of the known deviations explains is
+			// reproduced and recorded for the first few of each kind only;
+			// the others are counted.
+			dev := ""
+			if fin {
+				dev = zzC06Deviation(v, q, cased, &got[i])
+			}
+
+			if dev != "" {
+				over := false
+				r.count(func() {
+					r.devs[dev]++
+					over = r.devs[dev] > 20
+				})
+				if over {
+					continue
+				}
+			}
+
 			// Reproduce alone, on a fresh filter, with a long bound.
 			g2, conc, fin2 := r.one(tab, order, q, spell[i], 20*time.Second)
 			rec := map[string]any{
 				"tab": tab, "order": order, "table": r.concreteTable(tab, order), "cased": cased,
-				"h": q.h, "qt": q.qt, "query": conc, "want": want,
+				"h": q.h, "qt": q.qt, "query": conc, "want": want, "seed": zzSeed(),
+			}
+			if fin2 {
+				rec["deviation"] = zzC06Deviation(v, q, cased, &g2)
 			}
 			switch {
 			case !fin2:
@@ -754,7 +823,7 @@ func TestZZVerifC06Replay(t *testing.T) {
 	w := zzNewWriter(t, "VERIF_OUT")
 	defer w.close()
 
-	r := &zzC06Runner{conc: zzC06NewConc(zzSeed()), dataDir: t.TempDir(), w: w}
+	r := &zzC06Runner{conc: zzC06NewConc(zzSeed()), dataDir: t.TempDir(), w: w, devs: map[string]int{}}
 
 	work := make(chan func(), 64)
 	wg := &sync.WaitGroup{}
@@ -816,7 +885,7 @@ func TestZZVerifC06Replay(t *testing.T) {
 
 	w.put(map[string]any{
 		"kind": "summary", "vectors": n, "tables": r.tables, "orderings": r.orders, "evals": r.evals,
-		"bad": r.bad, "hangs": r.hangs, "flaky": r.flaky, "aborted": r.stop,
+		"bad": r.bad, "hangs": r.hangs, "flaky": r.flaky, "aborted": r.stop, "deviations": r.devs,
 	})
 }
 
@@ -1390,6 +1459,7 @@ type zzC06HistLine struct {
 	ID  int               `json:"id"`
 	T   []json.RawMessage `json:"t"`
 	V   []json.RawMessage `json:"v"`
+	VK  []json.RawMessage `json:"vk"`
 	Act string            `json:"act"`
 	A   json.RawMessage   `json:"a"`
 	B   json.RawMessage   `json:"b"`
@@ -1490,6 +1560,7 @@ func TestZZVerifC06History(t *testing.T) {
 	var l *zzC06Live
 	var hist []zzC06Step
 	steps, resets, evals, bad, hangs, flaky, setup := 0, 0, 0, 0, 0, 0, 0
+	devs := map[string]int{}
 	stop := false
 	zzReadNDJSON(t, "VERIF_IN", func(line []byte) {
 		if stop {
@@ -1516,7 +1587,7 @@ func TestZZVerifC06History(t *testing.T) {
 
 			return
 		case ln.K == "state":
-			v, err := zzC06Decode(hdr, &zzC06RawVec{T: ln.T, V: ln.V, O: 1})
+			v, err := zzC06Decode(hdr, &zzC06RawVec{T: ln.T, V: ln.V, VK: ln.VK, O: 1})
 			if err != nil {
 				t.Fatalf("decoding state: %v", err)
 			}
@@ -1584,6 +1655,20 @@ func TestZZVerifC06History(t *testing.T) {
 				continue
 			}
 
+			// (known deviations: the first few of each kind are reproduced
+			// and recorded, the others counted)
+			dev := ""
+			if fin {
+				dev = zzC06Deviation(dst, q, false, &got[i])
+			}
+
+			if dev != "" {
+				devs[dev]++
+				if devs[dev] > 20 {
+					continue
+				}
+			}
+
 			// Reproduce: the same history on a fresh filter, this query last.
 			g2, name, fin2, rerr := zzC06Rehearse(conc, dataDir, hist, qs, q, steps+i)
 			if rerr != nil {
@@ -1597,8 +1682,12 @@ func TestZZVerifC06History(t *testing.T) {
 
 			rec := map[string]any{
 				"steps": hist, "history": texts, "qs": zzC06QueryPairs(qs), "h": q.h, "qt": q.qt, "query": name,
-				"want": want, "table": l.concreteTab(dst.Tab),
+				"want": want, "table": l.concreteTab(dst.Tab), "seed": zzSeed(),
 			}
+			if fin2 {
+				rec["deviation"] = zzC06Deviation(dst, q, false, &g2)
+			}
+
 			switch {
 			case !fin2:
 				hangs++
@@ -1611,8 +1700,10 @@ func TestZZVerifC06History(t *testing.T) {
 				flaky++
 				rec["kind"], rec["got"], rec["first"] = "flaky", g2, got[i]
 			default:
-				bad++
 				rec["kind"], rec["got"] = "bad", g2
+				if rec["deviation"] == "" {
+					bad++
+				}
 			}
 
 			w.put(rec)
@@ -1631,7 +1722,7 @@ func TestZZVerifC06History(t *testing.T) {
 
 	w.put(map[string]any{
 		"kind": "summary", "steps": steps, "resets": resets, "evals": evals, "bad": bad, "hangs": hangs,
-		"flaky": flaky, "setup_errors": setup, "aborted": stop,
+		"flaky": flaky, "setup_errors": setup, "aborted": stop, "deviations": devs,
 	})
 }
 
